@@ -135,6 +135,20 @@ Section C17.
     forall st ps, accepted E st ps = events_of (combine ps (fst (nwk_run E st ps))).
   Proof. exact (accepted_spec E). Qed.
 
+  (** One manager INSTANCE used for a whole sequence of frames (mixed on-air level 0 and
+      explicit levels, encrypt and decrypt): the attributes that persist between calls
+      (patched, M, integrity, encryption, nonce, auth) are threaded explicitly in
+      [encrypt_st]/[decrypt_st].  A call's result, and the state it leaves, do not depend on the
+      state it finds; so in every history, from any initial state, call i returns exactly what a
+      fresh instance returns for it — and every theorem above applies to each call. *)
+  Theorem C17_instance_state_independent :
+    forall key s s' c, do_call E key s c = do_call E key s' c.
+  Proof. exact (do_call_indep E). Qed.
+
+  Theorem C17_instance_calls_stateless :
+    forall key cs s, fst (run_calls E key s cs) = map (fresh_call E key) cs.
+  Proof. exact (run_calls_stateless E). Qed.
+
   (** ------------------------------------------------------------------------------------
       EXTENSIONS of the model beyond the property's quantifier ("security levels 5..7 and the
       on-air level-0 convention").  Not obligations of C17; kept apart and prefixed [C17_ext_].
